@@ -10,7 +10,7 @@
 using namespace vp;
 
 enum { OP_LOAD_N, OP_LOAD_CT, OP_ALOAD_N, OP_ALOAD_CT, OP_STORE_N, OP_STORE_CT, OP_ASTORE_N, OP_ASTORE_CT,
-       OP_GATHER_N, OP_GATHER_CT, OP_SCATTER_N, OP_SCATTER_CT, OP_EXTRACT, OP_INSERT, OP_TO_ARRAY, OP_FROM_ARRAY, OP_COUNT };
+       OP_GATHER_N, OP_GATHER_CT, OP_SCATTER_N, OP_SCATTER_CT, OP_EXTRACT, OP_INSERT, OP_TO_ARRAY, OP_FROM_ARRAY, OP_GATHER_FAR, OP_SCATTER_FAR, OP_COUNT };
 // v0 payload lanes (memory contents for loads / vector for stores), v1 indices; s0 = n, s1 = element offset, s2 = placement, s3 = inserted value / lane
 static const VpOp OPS[] = {
     {"load_n", {VK_INT}, {SK_N, SK_OFF, SK_SMALL}, 3}, {"load_ct", {VK_INT}, {SK_N, SK_OFF, SK_SMALL}, 2},
@@ -19,7 +19,8 @@ static const VpOp OPS[] = {
     {"aligned_store_n", {VK_INT}, {SK_N, SK_OFF, SK_SMALL}, 2}, {"aligned_store_ct", {VK_INT}, {SK_N, SK_OFF, SK_SMALL}, 1},
     {"gather_n", {VK_INT, VK_IDX}, {SK_N, SK_OFF, SK_SMALL}, 3}, {"gather_ct", {VK_INT, VK_IDX}, {SK_N, SK_OFF, SK_SMALL}, 1},
     {"scatter_n", {VK_INT, VK_IDX}, {SK_N, SK_OFF, SK_SMALL}, 3}, {"scatter_ct", {VK_INT, VK_IDX}, {SK_N, SK_OFF, SK_SMALL}, 1},
-    {"extract", {VK_INT}, {SK_LANE}, 1}, {"insert", {VK_INT}, {SK_LANE, SK_NONE, SK_NONE, SK_INTVAL}, 1}, {"to_array", {VK_INT}, {}, 1}, {"array_ctor", {VK_INT}, {}, 1},
+    {"extract", {VK_INT}, {SK_LANE}, 1}, {"insert", {VK_INT}, {SK_LANE, SK_NONE, SK_NONE, SK_INTVAL}, 1}, {"to_array", {VK_INT}, {}, 1}, {"array_ctor", {VK_INT}, {SK_SMALL}, 2},
+    {"gather_far_index", {VK_INT, VK_IDX}, {SK_N, SK_OFF, SK_SMALL}, 1}, {"scatter_far_index", {VK_INT, VK_IDX}, {SK_N, SK_OFF, SK_SMALL}, 1},
 };
 enum { CL_PARTIAL, CL_N_GT_W, CL_N_ZERO, CL_UNALIGNED, CL_NEG_INDEX, CL_FLUSH_END, CL_FLUSH_START, CL_WILD_INACTIVE, CL_PTR_IN_GUARD, CL_ORDINARY };
 static const char* const CLASSES[] = {"partial_0_lt_n_lt_width", "n_greater_than_width", "n_zero", "unaligned_address", "negative_index",
@@ -66,6 +67,19 @@ static long arena_dirty_outside(const unsigned char* lo, const unsigned char* hi
     return -1;
 }
 
+// far-index arena for 64-bit indices: 32 GiB of reserved (PROT_NONE, never committed) address space with two accessible windows 2^32 elements
+// of 8 bytes apart, so that an index of +-2^32+k is a legal element and an implementation that truncates indices to 32 bits reads the wrong one
+static unsigned char* g_far = nullptr;
+static const size_t FAR_WIN = 8192, FAR_DIST = (size_t)1 << 35;
+static bool far_init() {
+    if (g_far) return true;
+    void* p = mmap(nullptr, FAR_DIST + 2 * FAR_WIN, PROT_NONE, MAP_PRIVATE | MAP_ANONYMOUS | MAP_NORESERVE, -1, 0);
+    if (p == MAP_FAILED) return false;
+    g_far = (unsigned char*)p;
+    if (mprotect(g_far, FAR_WIN, PROT_READ | PROT_WRITE) || mprotect(g_far + FAR_DIST, FAR_WIN, PROT_READ | PROT_WRITE)) { g_far = nullptr; return false; }
+    return true;
+}
+
 template<class V> struct IdxOf { typedef avel::Vector<typename avel::to_index_type<typename V::scalar>::type, V::width> type; };
 
 template<class V> struct LoadCt { const typename V::scalar* p; V r; template<unsigned I> void at() { r = avel::load<V, I>(p); } };
@@ -81,8 +95,9 @@ template<class V, bool HasGS = (sizeof(typename V::scalar) >= 4)> struct GS {
     typedef typename V::scalar T;
     typedef typename IdxOf<V>::type IV;
     static void run(const VpCase* c, VpOutcome* o, unsigned n, unsigned place);
+    static void far(const VpCase* c, VpOutcome* o, unsigned n);
 };
-template<class V> struct GS<V, false> { static void run(const VpCase*, VpOutcome* o, unsigned, unsigned) { o->status = 2; } };
+template<class V> struct GS<V, false> { static void run(const VpCase*, VpOutcome* o, unsigned, unsigned) { o->status = 2; } static void far(const VpCase*, VpOutcome* o, unsigned) { o->status = 2; } };
 
 template<class V> static void run(const VpCase* c, VpOutcome* o) {
     typedef typename V::scalar T;
@@ -109,6 +124,12 @@ template<class V> static void run(const VpCase* c, VpOutcome* o) {
     }
     uint64_t lanes[VP_MAXL], got[VP_MAXL], exp[VP_MAXL];
     for (unsigned i = 0; i < W; ++i) lanes[i] = c->v[0][i] & m;
+    if (op == OP_GATHER_FAR || op == OP_SCATTER_FAR) {
+#ifdef VP_PROP_C09
+        o->status = 2; return;
+#endif
+        GS<V>::far(c, o, n); return;
+    }
     if (op >= OP_EXTRACT) {
 #ifdef VP_PROP_C09
         o->status = 2; return;
@@ -133,8 +154,13 @@ template<class V> static void run(const VpCase* c, VpOutcome* o) {
             o->nontrivial = W > 1;
             cmp_lanes(o, W, lanes, got, nullptr, "to_array", "to_array(v)");
         } else {
-            std::array<T, W> arr; for (unsigned i = 0; i < W; ++i) arr[i] = elem<T>::from_bits(lanes[i]);
-            V r{arr}; rd<V>(r, got);
+            // the source array sits directly in front of a PROT_NONE page (an over-read faults) or one element before that (alignof(std::array<T,N>)
+            // is alignof(T), so an aligned full-width load faults on it)
+            typedef std::array<T, W> AT;
+            arena_fill();
+            AT* ap = reinterpret_cast<AT*>(rw_end() - sizeof(AT) - ((c->s[0] & 1) ? sizeof(T) : 0));
+            for (unsigned i = 0; i < W; ++i) (*ap)[i] = elem<T>::from_bits(lanes[i]);
+            V r{*ap}; rd<V>(r, got);
             o->nontrivial = W > 1;
             cmp_lanes(o, W, lanes, got, nullptr, "array_ctor", "Vector(array)");
         }
@@ -267,6 +293,42 @@ template<class V, bool H> void GS<V, H>::run(const VpCase* c, VpOutcome* o, unsi
     if (d >= 0) fail(o, -1, "scatter_outside", "%s wrote outside the %u addressed elements (region offset %ld)", OPS[op].name, cnt, d);
 }
 
+template<class V, bool H> void GS<V, H>::far(const VpCase* c, VpOutcome* o, unsigned n) {
+    const unsigned W = V::width;
+    if (sizeof(T) != 8 || !far_init()) { o->status = 2; return; }
+    typedef typename IV::scalar IT;
+    const unsigned cnt = n < W ? n : W;
+    const long per = (long)(FAR_WIN / sizeof(T));             // elements per window
+    const long dist = (long)(FAR_DIST / sizeof(T));           // 2^32 elements
+    const bool base_hi = (c->s[1] & 1);                       // base pointer in the upper or the lower window
+    T* lo_win = (T*)g_far; T* hi_win = (T*)(g_far + FAR_DIST);
+    T* base = (base_hi ? hi_win : lo_win) + per / 2;
+    long idx[VP_MAXL]; uint64_t il[VP_MAXL], lanes[VP_MAXL], got[VP_MAXL], exp[VP_MAXL];
+    for (unsigned i = 0; i < W; ++i) {
+        long k = (long)((i * 7 + (unsigned)c->s[1]) % (per / 2 - 1)) - (long)(per / 4);    // distinct small offsets inside a window
+        bool other = ((i + (unsigned)(c->s[1] >> 1)) & 1) == 0;                             // alternate lanes address the other window: index +-2^32 + k
+        idx[i] = k + (other ? (base_hi ? -dist : dist) : 0);
+        il[i] = (uint64_t)(int64_t)idx[i]; lanes[i] = c->v[0][i] & elem<T>::mask();
+    }
+    o->classes |= 1u << CL_NEG_INDEX; o->nontrivial = 1;
+    if (n > 0 && n < W) o->classes |= 1u << CL_PARTIAL; if (n > W) o->classes |= 1u << CL_N_GT_W; if (n == 0) o->classes |= 1u << CL_N_ZERO;
+    std::memset(lo_win, 0x6B, FAR_WIN); std::memset(hi_win, 0x6B, FAR_WIN);
+    IV iv = mk<IV>(il);
+    if (c->op == OP_GATHER_FAR) {
+        for (unsigned i = 0; i < cnt; ++i) { T x = elem<T>::from_bits(lanes[i]); std::memcpy(base + idx[i], &x, sizeof(T)); }
+        V r = avel::gather<V>((const T*)base, iv, n); rd<V>(r, got);
+        for (unsigned i = 0; i < W; ++i) exp[i] = i < cnt ? lanes[i] : 0;
+        cmp_lanes(o, W, exp, got, nullptr, "gather:far_index", "gather with indices of magnitude 2^32");
+        return;
+    }
+    V v = mk<V>(lanes);
+    avel::scatter(base, v, iv, n);
+    for (unsigned i = 0; i < W; ++i) { exp[i] = i < cnt ? lanes[i] : 0; got[i] = 0; }
+    for (unsigned i = 0; i < cnt; ++i) { T x; std::memcpy(&x, base + idx[i], sizeof(T)); got[i] = elem<T>::to_bits(x); std::memset(base + idx[i], 0x6B, sizeof(T)); }
+    if (!cmp_lanes(o, W, exp, got, nullptr, "scatter:far_index", "scatter with indices of magnitude 2^32")) return;
+    for (size_t k = 0; k < FAR_WIN; ++k) if (((unsigned char*)lo_win)[k] != 0x6B || ((unsigned char*)hi_win)[k] != 0x6B) { fail(o, -1, "scatter_outside:far_index", "scatter with far indices wrote outside the addressed elements (window byte %zu)", k); return; }
+}
+
 extern "C" void vp_run(const VpCase* c, VpOutcome* o) {
     switch (c->target) {
 #define X(n) case T_##n: run<avel::n>(c, o); return;
@@ -288,8 +350,13 @@ extern "C" void vp_enum(int tier, uint64_t seed, uint32_t shard, uint32_t nshard
             VpCase c; std::memset(&c, 0, sizeof c); c.target = t; c.op = op;
             // payload with all-distinct bytes so that a misplaced lane is visible
             for (unsigned i = 0; i < W; ++i) { uint64_t x = 0; for (unsigned k = 0; k < B / 8; ++k) x |= (uint64_t)((i * (B / 8) + k + 1 + seed * 16) & 0xFF) << (8 * k); c.v[0][i] = x & m; }
+            if (op == OP_GATHER_FAR || op == OP_SCATTER_FAR) {
+                if (B != 64) continue;
+                for (unsigned n = 0; n <= W + 1; ++n) for (unsigned v = 0; v < 8; ++v) { c.s[0] = n; c.s[1] = v; emit(&c, ctx); }
+                continue;
+            }
             if (op >= OP_EXTRACT) {
-                for (unsigned I = 0; I < W; ++I) { c.s[0] = I; c.s[3] = (int64_t)(0xC3C3C3C3C3C3C3C3ull & m); emit(&c, ctx); if (op >= OP_TO_ARRAY) break; }
+                for (unsigned I = 0; I < W; ++I) { c.s[0] = I; c.s[3] = (int64_t)(0xC3C3C3C3C3C3C3C3ull & m); emit(&c, ctx); if (op >= OP_TO_ARRAY && I >= 1) break; }
                 continue;
             }
             for (unsigned n = 0; n <= W + 2; ++n)
